@@ -82,7 +82,11 @@ SPECS = {
         exhaustive={"quick": False, "thorough": False},
     ),
     "C06": dict(
-        groups=["fields"],
+        groups=["fields", "project"],
+        only_oracles=["serde_name", "present", "nopanic", "c06_wire_names"],
+        # the text-level reader of `c06_wire_names` cannot take apart declarations whose member types are the unbalanced
+        # fragments of K05, and two declarations of one name are not told apart: out of its reach, not findings
+        excluded_classes=["K05_commaUnsafe", "K02a_prefixUnsafe", "K02e_nameClash", "duplicateTypeNames"],
         theorems="Typegen.Theorems.C06",
         trusted_base=[LEAN_TB, HARNESS_TB,
                       "spec: N.serdeName / N.applyVariant transcribe serde_derive internals/case.rs (apply_to_field / apply_to_variant), is_uppercase on ASCII",
@@ -92,9 +96,10 @@ SPECS = {
         rule="identifier tables (30 snake fields, 16 variants, 9 odd names) x {no rule, 8 rules, invalid rule} x 5 rename options x {field, variant}; "
              "attribute items {rename(4 values), skip, skip_serializing_if, default, default=path (2), alias (2), skip_deserializing, skip_serializing, with} "
              "singly and in ordered pairs, in one or two attributes, under 11 container attribute sets (quick: pairs sampled 1 in 6); "
+             "the project stream of C03 (random projects, both modes; enums with wire names differing in letter case only and rename values "
+             "with commas) read back from the emitted types.ts; "
              "non-trivial = at least one attribute item or name >=2 chars; distinct = hash of the input",
-        exhaustive={"quick": False, "thorough": True},
-        exhaustive_scope={"thorough": "all single items and ordered pairs x 2 placements x 11 containers"},
+        exhaustive={"quick": False, "thorough": False},
         partial=["C06_variant_names_partial: variants only for {PascalCase, camelCase, UPPERCASE} on UpperCamel identifiers (rest = K06a)",
                  "attribute scanner: skip decision proved for all token lists (C06_skip_tokens); the rename scanner is tied by correspondence + witnesses (K06b-d)"],
     ),
@@ -106,7 +111,7 @@ SPECS = {
                       "spec lexer P.lexJsString: JS double-quoted string literal with escapes \\ \" \n \r \t",
                       "modelled, not verified: proc_macro2 Display of the attribute tokens (real text handed to the model per case); syn"],
         assumptions=["messages are double-quoted Rust string literals", "one field per case; 'never attached to a different field' is covered at project level"],
-        rule="all subsets of (min,max,message) x 3 key orders x 10 field types for length and range (quick: 1 in 3), 18 numeric literal shapes, "
+        rule="all subsets of (min,max,message) x 3 key orders x 10 field types for length and range (quick: 1 in 3), 18 numeric literal shapes,  [field types also Option<Option<T>>, Vec<Option<String>>, Option<Vec<i32>>; bounds at and beyond 2^64; oracle schema_calls on the rendered schema] "
              "28 fixed messages (quotes, backslashes, parentheses, keywords, multi-byte) in two item contexts, combined/multiple attributes, "
              "random messages over a Unicode alphabet with multi-byte characters at every offset; non-trivial = at least one validator item; distinct = hash of input",
         exhaustive={"quick": False, "thorough": False},
@@ -230,7 +235,7 @@ def _pspecs():
             trusted_base=[LEAN_TB, PROC_TB, "faults are injected by filesystem obstacles: a directory in place of the file to be written, a regular file in place of the output directory"],
             assumptions=FS_ASSUME + ["a failing write of the cache record itself is covered by the theorems only (after invalidate-first no static obstacle makes exactly that write fail)",
                                      "crash points are covered by the theorem C17_every_prefix; the real binary is not killed mid-run"],
-            rule="for every operation of the plan that an obstacle can make fail (output path, types.ts, commands.ts, events.ts, index.ts, dependency-graph.txt/.dot with visualisation on): the fault in a first run, in a run after an output-changing edit, "
+            rule="for every operation of the plan that an obstacle can make fail (output path, types.ts, commands.ts, events.ts, index.ts, dependency-graph.txt/.dot with visualisation on): the fault in a first run, in a run after an output-changing edit,  [fault kinds: a directory in place of the file, /dev/full, an immutable record, a blocked write probe, a busy target (ETXTBSY), a read-only file system] "
                  "and with the edit reverted before the recovery run; both paths; thorough adds double faults and a second reverted aspect; every history ends with recovery runs compared with a fresh generation; non-trivial = all; distinct = history; the same in Zod mode; an immutable cache record; `init` with a write fault; crash points (the process killed by a file-size limit of 0 / 400 / 1500 bytes inside a write, thorough also 100 / 900) followed by a plain run",
             exhaustive={"quick": True, "thorough": True},
             exhaustive_scope={"quick": "all single-write fault positions x {first run, run after edit, edit reverted} x {cli, build} x {viz off, on}", "thorough": "same + double faults"},
@@ -241,7 +246,7 @@ def _pspecs():
                           "modelled, not verified: serde_json parses and prints JSON values faithfully (numbers are whatever serde_json::Value holds; precision beyond f64 not modelled); clap parses the flags"],
             assumptions=FS_ASSUME + ["'preserves every other key and value' is read on JSON values (serde_json without preserve_order sorts keys on write)",
                                      "effective settings are observed from outside: which project's command appears, where files land, the Generator line of types.ts, verbose output, whether an identical second invocation rewrites"],
-            rule="function-level: random JSON documents (nested objects/arrays, Unicode and escaped strings, i64/u64 extremes, decimals; plugins absent / object / with typegen / non-object; non-object documents) x 6 settings values x existing / missing project path "
+            rule="function-level: random JSON documents (nested objects/arrays, Unicode and escaped strings, i64/u64 extremes, decimals; plugins absent / object / with typegen / non-object; non-object documents) x 6 settings values x existing / missing project path  [the document in each of the three places the tool looks in: working directory, ./src-tauri, parent directory] "
                  "through the real save_to_tauri_config and from_tauri_config; process-level: all 32 subsets of {-p,-o,-v,--verbose,--force} x 7 file blocks (absent, valid, valid+verbose+force, unsupported library, missing project path, partial, empty) "
                  "(quick: a third of the masks only with the 3 most informative blocks), init x {none,zod,yup,Zod} x 5 plugins values; non-trivial = all; distinct = input",
             exhaustive={"quick": False, "thorough": True},
@@ -252,7 +257,7 @@ def _pspecs():
             trusted_base=[LEAN_TB, PROC_TB, "tg-extract (syn) re-reads is_generated_file's patterns, the names passed to write_typescript_file, CACHE_FILE_NAME, the dependency-graph names and the write-probe name from the source on every run; the C16 theorems are re-checked against them",
                           "that every operation targets `<output dir>/<name>` (format!/join) is modelled by construction and validated by recursive before/after snapshots of the whole sandbox"],
             assumptions=FS_ASSUME + ["OutputManager's per-run managed_files set only contains names the run itself wrote", "directories are created only along the output path"],
-            rule="output directory beside / nested inside / deep below / outside the project, relative and absolute, pre-populated with 14 foreign names close to the reserved ones "
+            rule="output directory beside / nested inside / deep below / outside the project, relative and absolute, pre-populated with 14 foreign names close to the reserved ones  [also: output directories whose own name matches the tool's patterns (`__generated__`, `generated_bindings/ts_generated`); the user's own renderings `dependency-graph.png/.svg/.json`] "
                  "(incl. a sub-directory with a types.ts) and 5 reserved decoys; sequences of generate / generate --visualize-deps / build-script runs / init (tauri.conf.json and custom file) / runs after all commands were removed; "
                  "recursive hash+mtime snapshot of the whole sandbox before and after every action; non-trivial = all; distinct = (layout, path kind, mode, sequence, seed); further layouts (directory names with a backslash / spaces / `./x/./y/`), a blocked write probe, a foreign directory called `.typecache`, `init` with a named configuration document, user files that look generated or carry the tool's header, every sequence of up to three actions over {generate, build, generate --visualize-deps, touch a source, drop the commands, doctored cache record, blocked / unblocked probe, .typecache directory} ending in a run (thorough: all 273; quick: one in ten), an output flag spelled like the default",
             exhaustive={"quick": False, "thorough": False},
